@@ -106,9 +106,12 @@ def denExtOf (ext : Ext) : DenExt :=
     decRescale := ext.decRescale }
 
 /-- What is assumed of `rust_decimal`: a mantissa fits `i128` (it has 96 bits) and a scale fits
-    a `long` (it is at most 28). -/
+    a `long` (it is at most 28).  `rescale` is CONDITIONAL on its argument fitting `i128`: the
+    serializer only rescales a value that `decParse` / `decFromF64` returned, and a parameter
+    table that answers `d` itself outside its finite domain (the test driver's
+    `ExtTable.toExt`) satisfies this form (`Driver.toExt_ExtOK`), not the unconditional one. -/
 structure ExtOK (ext : Ext) : Prop where
-  rescale : ∀ d scale, inI128 (ext.decRescale d scale).1 = true
+  rescale : ∀ d scale, inI128 d.1 = true → inI128 (ext.decRescale d scale).1 = true
   fromF64 : ∀ b d, ext.decFromF64 b = some d → inI128 d.1 = true ∧ d.2 < 2 ^ 63
   parse : ∀ s d, ext.decParse s = some d → inI128 d.1 = true ∧ d.2 < 2 ^ 63
 
@@ -279,17 +282,18 @@ theorem viaUnion_leaf {ext : DenExt} {S : Schema} (hS : SchemaOK S) {node : Node
 /-- a `rust_decimal` value written to a decimal node -/
 theorem serDecimal_regular_sound {ext : Ext} (hext : ExtOK ext) (S : Schema) (scale prec : Nat)
     (repr : DecimalRepr) (d : Int × Nat) (s : SerState) (h : s.budget = none)
+    (hd128 : inI128 d.1 = true)
     (hok : (serDecimal ext (.regular scale repr) d s).1 = .ok ()) :
     ∃ u bytes, serDecimal ext (.regular scale repr) d s = (.ok (), { s with out := s.out ++ bytes }) ∧
       Dec S (.decimal scale prec repr) bytes (.decimal u) ∧
       decimalOf (denExtOf ext) scale d = some u := by
   cases repr with
   | bytes =>
-    obtain ⟨hsc, m, hl, he, hv⟩ := serDecimal_regular_bytes ext scale d s h (hext.rescale d scale) hok
+    obtain ⟨hsc, m, hl, he, hv⟩ := serDecimal_regular_bytes ext scale d s h (hext.rescale d scale hd128) hok
     refine ⟨(ext.decRescale d scale).1, _, he, Dec.of_step fun fuel rest => ?_, by simp [decimalOf, denExtOf, hsc]⟩
     simp [decode, decodeBytes_lenPrefixed m (by omega) rest, hv]
   | fixed nm size =>
-    obtain ⟨hsc, m, hl, he, hv⟩ := serDecimal_regular_fixed ext scale nm size d s h (hext.rescale d scale) hok
+    obtain ⟨hsc, m, hl, he, hv⟩ := serDecimal_regular_fixed ext scale nm size d s h (hext.rescale d scale hd128) hok
     refine ⟨(ext.decRescale d scale).1, _, he, Dec.of_step fun fuel rest => ?_, by simp [decimalOf, denExtOf, hsc]⟩
     simp [decode, takeN_append_of_length m rest hl, hv]
 
@@ -571,7 +575,7 @@ theorem serStrAt_leaf (hext : ExtOK ext) {n : Node} (hnok : NodeOK S n)
     | none => simp [hp, SerM.fail] at hok
     | some d =>
       simp only [hp] at hok ⊢
-      obtain ⟨u, bytes, he, hd, hu⟩ := serDecimal_regular_sound hext S scale prec repr d s h hok
+      obtain ⟨u, bytes, he, hd, hu⟩ := serDecimal_regular_sound hext S scale prec repr d s h (hext.parse str d hp).1 hok
       refine ⟨.decimal u, bytes, he, hd, ?_⟩
       have hp' : (denExtOf ext).decParse str = some d := hp
       rcases hsv with rfl | ⟨c, rfl, rfl⟩ <;>
@@ -715,7 +719,7 @@ theorem serF64_sound (hext : ExtOK ext) (bits : BitVec 64) (hok : (serF64 ext S 
     | none => simp [hp, SerM.fail] at hok
     | some d =>
       simp only [hp] at hok ⊢
-      obtain ⟨u, bytes, he, hd, hu⟩ := serDecimal_regular_sound hext S scale prec repr d s h hok
+      obtain ⟨u, bytes, he, hd, hu⟩ := serDecimal_regular_sound hext S scale prec repr d s h (hext.fromF64 bits d hp).1 hok
       have hp' : (denExtOf ext).decFromF64 bits = some d := hp
       refine ⟨.decimal u, bytes, he, hd, ?_⟩
       simp only [denotesLeaf, hp']; exact decide_eq_true hu
